@@ -185,6 +185,18 @@ fn c16_packet_route(c: &mut Ctx, s: &str) {
     }
 }
 
+fn long_multibyte_strings(r: &mut Rng, n: usize, f: &mut dyn FnMut(&str)) {
+    for _ in 0..n {
+        let b = crate::gen::long_invalid_filter(r);
+        f(std::str::from_utf8(&b).expect("generator yields UTF-8"));
+        // and a valid long one: levels of multi-byte text
+        let len = r.range(100, 400);
+        let mut s = String::from_utf8(crate::gen::text_exact(r, len)).expect("utf8");
+        s.push_str(*r.pick(&["/#", "/+", "/x", ""]));
+        f(&s);
+    }
+}
+
 fn long_strings(r: &mut Rng, f: &mut dyn FnMut(&str)) {
     for len in [65_533usize, 65_534, 65_535, 65_536, 65_537] {
         for tail in ["", "/+", "/#", "+", "#", "/a", "\0", "/+/", "é"] {
@@ -226,6 +238,7 @@ pub fn c16(ctx: &mut Ctx, layer: &str) {
             }
         }
     };
+    let layer_is_small = matches!(layer, "miri" | "vg");
     wl::par(ctx, |w, n, c, r| {
         let mut cnt = 0u64;
         let mut classes: std::collections::BTreeMap<&'static str, u64> = Default::default();
@@ -261,6 +274,28 @@ pub fn c16(ctx: &mut Ctx, layer: &str) {
                 c16_string(c, s, true);
                 c16_packet_route(c, s);
             });
+        }
+        {
+            // long strings with multi-byte characters at arbitrary offsets, valid and invalid (all workers)
+            let mut lr = r.clone();
+            let per = if layer_is_small { 4 } else { 400 };
+            let res = guard(|| {
+                let mut local = c.child();
+                long_multibyte_strings(&mut lr, per, &mut |s| {
+                    local.eval();
+                    local.distinct(fnv_bytes(16, s.as_bytes()));
+                    local.count("long-multibyte-strings");
+                    c16_string(&mut local, s, true);
+                    c16_packet_route(&mut local, s);
+                });
+                local
+            });
+            match res {
+                Ok(local) => c.merge(local),
+                Err(pm) => c.violation(format!("C16:panic:{}", panic_sig(&pm)), format!("filter validation / SUBSCRIBE decoding panicked on a long multi-byte string: {}", pm), Case::new("string", 0, &[])),
+            }
+        }
+        if w == 0 {
             for s in ["+", "#", "+/+", "+x", "a/+x", "$share/g/+x", "x+", "a/#", "a/#/", "$share/g/a", "$share/g", "sport/+/player1", "/", "//", "$share/é𝄞/+/#"] {
                 c.sample(|| format!("{:?} -> lib says {}", s, if TopicFilter::is_invalid(s).0 { "invalid" } else { "valid" }));
                 c16_string(c, s, true);
